@@ -963,9 +963,25 @@ func execProt(req string) string {
 	return out
 }
 
+// protEncHook, when set, sees the fragment a successful prot.enc / prot.enciv request produced (the emitter's byte oracle)
+var protEncHook func(fr *mp4.Fragment)
+
 func execProtInner(op string, a []string) string {
 	switch op {
-	case "prot.enc":
+	case "prot.enc", "prot.enciv":
+		// prot.enc <scheme> <subs> <frag>: EncryptFragment with a 16-byte IV;
+		// prot.enciv <ivlen> <scheme> <subs> <frag>: with an IV of the given length
+		ivLen := 16
+		if op == "prot.enciv" {
+			if len(a) != 4 {
+				return "bad-op"
+			}
+			n, err := strconv.Atoi(a[0])
+			if err != nil || n < 0 || n > 64 {
+				return "bad-desc"
+			}
+			ivLen, a = n, a[1:]
+		}
 		if len(a) != 3 {
 			return "bad-op"
 		}
@@ -985,13 +1001,17 @@ func execProtInner(op string, a []string) string {
 			trex = &mp4.TrexBox{TrackID: fr.Moof.Traf.Tfhd.TrackID}
 		}
 		ipd := &mp4.InitProtectData{Tenc: schemeTenc(a[0]), ProtFunc: countingProtFunc(subs, &calls), Trex: trex, Scheme: a[0]}
-		if err := mp4.EncryptFragment(fr, protKey, make([]byte, 16), ipd); err != nil {
+		if err := mp4.EncryptFragment(fr, protKey, make([]byte, ivLen), ipd); err != nil {
 			return "err"
 		}
 		if calls != len(subs) {
 			return "err"
 		}
-		return renderFrag(fr, hintsOf(p))
+		out := renderFrag(fr, hintsOf(p))
+		if protEncHook != nil {
+			protEncHook(fr) // after rendering: writing the fragment sets its data offsets
+		}
+		return out
 	case "prot.all":
 		if len(a) != 2 {
 			return "bad-op"
@@ -1307,6 +1327,11 @@ type protEmit struct {
 	which    string
 	rebuilt  int
 	mismatch int
+	// the sweep around the one-byte saiz limit (emitProtModel): scheme, caller IV length and the number of sub-sample
+	// entries of one sample are fixed for the next synthetic EncryptFragment case (forceEntries = 0: all drawn)
+	forceScheme  string
+	forceIV      int
+	forceEntries int
 }
 
 // emit one model case; every few cases the self-contained rebuild of the request is executed too and must answer the same
@@ -1346,6 +1371,16 @@ func emitProtModel(c *Ctx, which string) {
 	for it := 0; it < c.N(120, 1500); it++ {
 		pe.synthetic(it)
 	}
+	// IV length 8 / 16 x scheme x sub-sample entries of one sample around (255 - IV size - 2) / 6 for IV sizes 0, 8, 16
+	for _, sc := range []string{"cenc", "cbcs"} {
+		for _, ivLen := range []int{8, 16} {
+			for k := 36; k <= 45; k++ {
+				pe.forceScheme, pe.forceIV, pe.forceEntries = sc, ivLen, k
+				pe.synthetic(0)
+			}
+		}
+	}
+	pe.forceEntries = 0
 	for it := 0; it < c.N(90, 700); it++ {
 		pe.initCases(it)
 	}
@@ -1896,13 +1931,21 @@ func (pe *protEmit) synthetic(it int) {
 				out = append(out, 1+r.Intn(5))
 			case 2: // around the one-byte limit of a saiz entry
 				out = append(out, 38+r.Intn(6))
+			case 4: // one sample around the limit ((255 - IV size - 2) / 6 +- 2 for IV sizes 0, 8, 16) among small ones
+				out = append(out, 1+r.Intn(5))
 			default: // mixed
 				out = append(out, r.Intn(2)*(1+r.Intn(3)))
 			}
 		}
+		if mode == 4 && n > 0 {
+			out[r.Intn(n)] = 37 + r.Intn(8)
+		}
 		return out
 	}
 	scheme := []string{"cenc", "cbcs"}[r.Intn(2)]
+	if pe.forceEntries > 0 {
+		scheme = pe.forceScheme
+	}
 	iv := 16
 	if scheme == "cbcs" {
 		iv = 0
@@ -1910,14 +1953,37 @@ func (pe *protEmit) synthetic(it int) {
 	switch it % 6 {
 	case 0, 1: // EncryptFragment on one traf / one trun with all kinds of sub-sample maps; then write, decrypt
 		ns := r.Intn(6)
+		if pe.forceEntries > 0 {
+			ns = 1 + r.Intn(4)
+		}
 		d0, counts := mkFrag(1, []int{1}, ns)
 		if d0 == "" {
 			return
 		}
-		subs := randSubs(counts[0][0], r.Intn(4))
-		reqEnc := fmt.Sprintf("prot.enc %s %s %s", scheme, plusInts(subs), d0)
+		subs := randSubs(counts[0][0], r.Intn(5))
+		// the IV the caller passes: 16 or 8 bytes (zero-extended by the library), now and then a length it must refuse
+		ivArg := []int{16, 16, 8, 8, 8, []int{0, 4, 12, 15, 17, 24, 32}[r.Intn(7)]}[r.Intn(6)]
+		if pe.forceEntries > 0 {
+			subs = randSubs(counts[0][0], 1)
+			subs[r.Intn(len(subs))] = pe.forceEntries
+			ivArg = pe.forceIV
+		}
+		reqEnc := fmt.Sprintf("prot.enciv %d %s %s %s", ivArg, scheme, plusInts(subs), d0)
+		var written []byte
+		protEncHook = func(fr *mp4.Fragment) {
+			var buf bytes.Buffer
+			if err := fr.Encode(&buf); err == nil {
+				written = buf.Bytes()
+			}
+		}
 		d1 := execProt(reqEnc)
+		protEncHook = nil
 		pe.emit(reqEnc, d1, false)
+		if written != nil { // the sizes and the offset describe the entries written (bytes parsed independently)
+			if kind, got, exp := checkAuxBytes(written, iv, len(subs)); kind != "" {
+				pe.fail("C07", "prot-"+kind, auxWhat[kind], reqEnc, got, exp)
+			}
+		}
 		if d1 == "err" || strings.HasPrefix(d1, "panic") || strings.HasPrefix(d1, "bad") {
 			if strings.HasPrefix(d1, "panic") {
 				pe.fail(pe.which, "prot-panic", "EncryptFragment panics: "+d1, reqEnc, d1, "")
